@@ -17,6 +17,10 @@ VERIF = os.path.dirname(os.path.dirname(os.path.abspath(__file__)))
 REPO = os.environ.get("VERIF_REPO", "/repo")
 EVIDENCE_DIR = os.path.join(VERIF, "evidence")
 REPLAY_DIR = os.path.join(VERIF, "replays")
+if REPO != "/repo":
+    # runs against a scratch checkout (seeded changes) never touch the evidence of the real tree
+    EVIDENCE_DIR = os.path.join(VERIF, "scratch", "evidence-" + os.path.basename(REPO.rstrip("/")))
+    REPLAY_DIR = os.path.join(VERIF, "scratch", "replays-" + os.path.basename(REPO.rstrip("/")))
 FINDINGS_FILE = os.path.join(VERIF, "known_findings.json")
 
 LEVELS = {}  # property id -> level category (filled by harness modules through register)
